@@ -237,7 +237,8 @@ namespace xsimd
     template <class T>
     XSIMD_INLINE T incr_if(T const& x, bool mask) noexcept
     {
-        return x + T(mask ? 1 : 0);
+        // x is returned untouched when the mask is false (x + 0 would turn -0. into +0.)
+        return mask ? x + T(1) : x;
     }
 
     XSIMD_INLINE bool all(bool mask)
